@@ -1,5 +1,6 @@
 from __future__ import annotations
 
+import sys
 from typing import TYPE_CHECKING, BinaryIO
 
 if TYPE_CHECKING:
@@ -11,7 +12,8 @@ class BitBuffer:
 
     def __init__(self, stream: BinaryIO, endian: str):
         self.stream = stream
-        self.endian = endian
+        # The storage unit is read with the byte order of the host for the native codes, so use that bit order too
+        self.endian = ("<" if sys.byteorder == "little" else ">") if endian in ("@", "=") else endian
 
         self._type: type[BaseType] | None = None
         self._buffer = 0
